@@ -708,6 +708,11 @@ func (runInfo *runInfoStruct) invokeMakeExpr(expr *ast.MakeExpr) {
 			runInfo.rv = nilValue
 			return
 		}
+		runInfo.rv = nilValue
+		if !runInfo.options.Debug {
+			// captures panic
+			defer recoverFunc(runInfo)
+		}
 		runInfo.rv = reflect.MakeSlice(t, aLen, cap)
 		return
 	case ast.TypeChan:
@@ -724,6 +729,11 @@ func (runInfo *runInfoStruct) invokeMakeExpr(expr *ast.MakeExpr) {
 			runInfo.err = newStringError(expr, "make chan buffer size must not be negative")
 			runInfo.rv = nilValue
 			return
+		}
+		runInfo.rv = nilValue
+		if !runInfo.options.Debug {
+			// captures panic
+			defer recoverFunc(runInfo)
 		}
 		runInfo.rv = reflect.MakeChan(t, aLen)
 		return
